@@ -28,7 +28,7 @@ PATHS = ("cwrite", "block_to_file", "to_tim", "to_dat", "to_spec", "to_fft")
 
 def REQUIRED(tier):
     return ["view:byteswapped", "readback_blocks_held", "readback_overlapping_plan", "prep_outfile:no_arguments", "path:cwrite", "path:block_to_file", "path:to_tim", "path:to_dat", "path:to_spec", "path:to_fft",
-            "readback_compared", "declared_width_checked", "spy:cwrite_calls", "dtype_mismatch_cases", "multi_call_writes", "path:reuse_name", "reuse_name:equal_length_products", "dotted_basename_pairs", "path:tim_depths"]
+            "readback_compared", "declared_width_checked", "spy:cwrite_calls", "dtype_mismatch_cases", "multi_call_writes", "path:reuse_name", "reuse_name:equal_length_products", "dotted_basename_pairs", "path:tim_depths", "reuse_name:shorter_product_last"]
 
 
 def cases(tier, seed):
@@ -257,7 +257,10 @@ def _run_reuse_name(case, ctx):
     path = os.path.join(ctx.tmp, "reused_name" + {"cwrite": ".fil", "to_tim": ".tim", "to_spec": ".spec", "block_to_file": ".fil"}[via])
     ctx.evaluated(); ctx.count("path:reuse_name")
     prods = []
-    for rnd in range(2):
+    for rnd in range(3):
+        if rnd == 2:      # and a third, shorter product under the same name: nothing of the longer one may remain behind it
+            ns = max(1, case["nsamps"] // 2)
+            ctx.count("reuse_name:shorter_product_last")
         tsamp, tstart, dm = float(rng.choice([6.4e-5, 1e-3, 2.5e-4])) * (rnd + 1), 59000.0 + rnd * 1.5 + float(rng.random()), float(rng.integers(1, 900)) / 4 + rnd
         def hdr(nchans, nbits, n, data_type="filterbank"):
             return Header(filename=path, data_type=data_type, nchans=nchans, foff=-0.5, fch1=1400.0, nbits=nbits, tsamp=tsamp, tstart=tstart, nsamples=n, dm=dm, source="J0000-0000")
